@@ -9,7 +9,7 @@ LEVEL = "translation_validation"
 FUNCTIONS = [("pandapower.pypower.makeYbus", "makeYbus"), ("pandapower.pf.makeYbus_numba", "makeYbus"), ("pandapower.pf.makeYbus_numba", "gen_Ybus"),
              ("pandapower.pypower.pfsoln", "pfsoln"), ("pandapower.pf.pfsoln_numba", "pfsoln"), ("pandapower.pf.pfsoln_numba", "_update_branch_flows"),
              ("pandapower.pf.pfsoln_numba", "calc_branch_flows"), ("pandapower.pf.pfsoln_numba", "pf_solution_single_slack"),
-             ("pandapower.pf.run_newton_raphson_pf", "_get_numba_functions"), ("pandapower.pf.run_bfswpf", "_make_bibc_bcbv"),
+             ("pandapower.pf.run_newton_raphson_pf", "_get_numba_functions"), ("pandapower.pypower.gausspf", "gausspf"), ("pandapower.pf.run_bfswpf", "_make_bibc_bcbv"),
              ("pandapower.pf.run_bfswpf", "_makeYsh_bfsw"), ("pandapower.pf.run_bfswpf", "_bfswpf"), ("pandapower.pf.run_bfswpf", "_run_bfswpf"),
              ("pandapower.pf.run_bfswpf", "_get_bibc_bcbv"), ("pandapower.pypower.newtonpf", "_evaluate_Fx"), ("pandapower.pypower.newtonpf", "_check_for_convergence")]
 STUBS = ["numba jit removed (numba's contract: the compiled function has the semantics of its Python body)", "scipy.sparse -> dense stand-in with CSR view",
@@ -294,6 +294,32 @@ def make_bfsw_shift(topo):
     return fn
 
 
+def make_gauss_seidel_start():
+    """Gauss-Seidel: when the solver accepts the start vector without a sweep it reports it as the solution - that is only in agreement with
+    Newton-Raphson if every mismatch component Newton tests (P at PV and PQ buses, Q at PQ buses) is below the tolerance"""
+    def fn(ctx):
+        gs = ctx.load("pandapower.pypower.gausspf")
+        mY = ctx.load("pandapower.pypower.makeYbus")
+        from symx.core import SComplex
+        bus, branch = _branch_bus(ctx, [(0, 1), (1, 2)], lean=True)
+        Ybus, Yf, Yt = mY.makeYbus(10.0, bus, branch)
+        mk = (lambda re, im: SComplex(re, im)) if ctx.symbolic else complex
+        V0 = ctx.array([mk(ctx.var(f"vre{b}", 0.8, 1.2), ctx.var(f"vim{b}", -0.3, 0.3)) for b in range(3)])
+        Sbus = ctx.array([mk(ctx.var(f"p{b}", -2., 2.), ctx.var(f"q{b}", -2., 2.)) for b in range(3)])
+        tol = 0.01
+        ppopt = {"PF_TOL": tol, "PF_MAX_IT_GS": 0, "VERBOSE": 0}
+        ref, pv, pq = np.array([0]), np.array([1]), np.array([2])
+        V, converged, it = gs.gausspf(Ybus, Sbus.copy(), V0.copy(), ref, pv, pq, ppopt)
+        A = _dense(Ybus)
+        mis = [V0[b] * sum(A[b, j] * V0[j] for j in range(3)).conjugate() - Sbus[b] for b in range(3)]
+        if bool(converged):
+            for nm, val in (("P_at_the_PV_bus", mis[1].real), ("P_at_the_PQ_bus", mis[2].real), ("Q_at_the_PQ_bus", mis[2].imag)):
+                ctx.true(f"accepted_start_vector_has_small_mismatch/{nm}", (val < tol) & (val > -tol))
+        else:
+            ctx.true("start_vector_rejected", True)
+    return fn
+
+
 def instances(tier):
     out = []
     for lay in ("parallel_pair", "reversed") + (("triangle", "four") if tier == "thorough" else ()):
@@ -309,6 +335,7 @@ def instances(tier):
     # numba=True picks the result extraction with _get_numba_functions: whatever it picks must agree with the general pfsoln (numba=False)
     out.append(Inst("numba_result_extraction_selector", c01.make_shortcut(), nvars=30, samples=2, timeout_ms=120000,
                     meta=dict(kernel="pfsoln selector (numba on) vs general pfsoln (numba off)")))
+    out.append(Inst("gauss_seidel_start_vector_test", make_gauss_seidel_start(), nvars=30, samples=3, timeout_ms=60000, meta=dict(kernel="gausspf convergence test before the first sweep")))
     out.append(Inst("pfsoln", make_pfsoln(), nvars=48, samples=3, timeout_ms=60000, meta=dict(kernel="pfsoln")))
     return out
 
